@@ -41,6 +41,10 @@ type c16SDK struct {
 	liveInsts    map[int][]metric.Observable
 	spans        []string // tracer/name of started spans
 	tracers      int
+	// pipeline: like the real SDK's pipeline lock, held by a collection WHILE the callbacks run and
+	// taken by RegisterCallback (scenario G15 only; usePL)
+	usePL    bool
+	pipeline vsync.Mutex
 }
 
 func newC16SDK() *c16SDK {
@@ -311,6 +315,10 @@ func (r c16Reg) Unregister() error {
 }
 
 func (m c16Meter) RegisterCallback(f metric.Callback, insts ...metric.Observable) (metric.Registration, error) {
+	if m.s.usePL {
+		m.s.pipeline.Lock()
+		defer m.s.pipeline.Unlock()
+	}
 	m.s.mu.Lock()
 	defer m.s.mu.Unlock()
 	m.s.regs++
@@ -353,6 +361,10 @@ func (s *c16SDK) collect() (runs int, seen []string) {
 		fs = append(fs, s.live[id])
 	}
 	s.mu.Unlock()
+	if s.usePL {
+		s.pipeline.Lock()
+		defer s.pipeline.Unlock()
+	}
 	for _, f := range fs {
 		o := &c16Observer{}
 		_ = f(context.Background(), o)
@@ -433,6 +445,7 @@ func c16Body(sc c16Scn, res *string) func(x *sched.Exec) {
 		c16Reset()
 		SetErrorHandler(c16Silent{}) // the self-set ops report through the global error handler
 		sdk := newC16SDK()
+		sdk.usePL = strings.HasPrefix(sc.name, "G15-")
 		ctx := context.Background()
 		var installedAt atomic.Int64 // step+1 at which SetMeterProvider returned
 		var tinstalledAt atomic.Int64
@@ -563,6 +576,27 @@ func c16Body(sc c16Scn, res *string) func(x *sched.Exec) {
 							return nil
 						}, g)
 						o.cbs = append(o.cbs, cb{"g", false, runs})
+					case "CbInner": // a callback that itself asks the global API for a meter (lazy set-up inside a callback)
+						m := MeterProvider().Meter("x")
+						g, _ := m.Int64ObservableGauge("g")
+						runs := &atomic.Int32{}
+						_, _ = m.RegisterCallback(func(_ context.Context, ob metric.Observer) error {
+							runs.Add(1)
+							_ = MeterProvider().Meter("inner")
+							ob.ObserveInt64(g, 7)
+							return nil
+						}, g)
+						o.cbs = append(o.cbs, cb{"g", false, runs})
+					case "CbOnY": // a callback on another meter (delegated after meter "x"'s by an installation)
+						m := MeterProvider().Meter("y")
+						g, _ := m.Float64ObservableCounter("oc")
+						runs := &atomic.Int32{}
+						_, _ = m.RegisterCallback(func(_ context.Context, ob metric.Observer) error {
+							runs.Add(1)
+							ob.ObserveFloat64(g, 9)
+							return nil
+						}, g)
+						o.cbs = append(o.cbs, cb{"oc", false, runs})
 					case "Collect": // a reader of the SDK collects: its observer receives what ITS run of the callbacks observed
 						runs, seen := sdk.collect()
 						if len(seen) != runs {
@@ -798,6 +832,7 @@ func c16Jobs(thorough, race bool) []c16Job {
 		{"G12-two-readers-collect", [][]string{{"CbY", "InstallM", "Collect"}, {"Collect"}}},
 		{"G13-two-installations-racing-tracers-handed-out-before", [][]string{{"InstallT"}, {"Install2Span"}}},
 		{"G14-two-installations-racing-instrument-created-before", [][]string{{"InstallM"}, {"Install2Ctr"}}},
+		{"G15-collection-holding-the-SDK-lock-runs-a-callback-that-asks-for-a-meter-while-an-installation-registers-callbacks", [][]string{{"CbInner", "CbOnY", "InstallM"}, {"Collect", "Collect"}}},
 		{"G11-sdk-refuses-instruments", [][]string{{"BadSync", "Ctr", "BadAsync", "InstallM"}, {"BadSync", "Ctr"}, {"BadAsync", "Cb"}}},
 	}
 	p := 3
